@@ -65,6 +65,8 @@ func planCanon(p *Prog) canonPlan {
 			}
 			var decls []string
 			keep := map[string]bool{}
+			extraImports := map[string]string{}   // confirmed: used by an emitted helper
+			pendingImports := map[string]string{} // seen while rendering the types of the helper being considered
 			qualOK := true
 			qual := func(at token.Pos) types.Qualifier {
 				scope := pkg.Types.Scope().Innermost(at)
@@ -91,6 +93,34 @@ func planCanon(p *Prog) canonPlan {
 							}
 						}
 						return name
+					}
+					// a package the file does not import yet: imported for the synthesised helper when its name is free
+					if _, o := pkg.Types.Scope().LookupParent(q.Name(), token.NoPos); o == nil && pkg.Types.Scope().Lookup(q.Name()) == nil {
+						clash := false
+						for _, imp := range file.Imports {
+							n := ""
+							if imp.Name != nil {
+								n = imp.Name.Name
+							} else if ip := pkg.Types.Imports(); ip != nil {
+								for _, pp := range ip {
+									if pp.Path() == strings.Trim(imp.Path.Value, "\"") {
+										n = pp.Name()
+									}
+								}
+							}
+							if n == q.Name() {
+								clash = true
+							}
+						}
+						if scope != nil {
+							if _, o := scope.LookupParent(q.Name(), at); o != nil {
+								clash = true
+							}
+						}
+						if !clash {
+							pendingImports[q.Path()] = q.Name()
+							return q.Name()
+						}
 					}
 					qualOK = false
 					return q.Name()
@@ -131,6 +161,7 @@ func planCanon(p *Prog) canonPlan {
 				}
 				return ""
 			}
+			addedSort := false
 			var taken [][2]token.Pos
 			free := func(a, b token.Pos) bool {
 				for _, r := range taken {
@@ -169,6 +200,9 @@ func planCanon(p *Prog) canonPlan {
 					}
 					return true
 				case *ast.CallExpr:
+					for k := range pendingImports {
+						delete(pendingImports, k)
+					}
 					name := stdName(x.Fun)
 					sig, _ := info.TypeOf(x.Fun).(*types.Signature)
 					if sig == nil || x.Ellipsis.IsValid() {
@@ -201,6 +235,82 @@ func planCanon(p *Prog) canonPlan {
 							result = "int"
 							body = "\tfor i, x := range s {\n\t\tif " + test + " {\n\t\t\treturn i\n\t\t}\n\t}\n\treturn -1\n"
 						}
+					case "slices.SortFunc", "slices.SortStableFunc":
+						// slices.SortFunc(S, func(a, b T) int { ... return E })  ->
+						// sort.Slice(S, func(i, j int) bool { a, b := S[i], S[j]; ... return (E) < 0 })
+						if len(x.Args) != 2 || !isPlainOperand(x.Args[0]) || !free(x.Pos(), x.End()) {
+							return true
+						}
+						lit, ok := ast.Unparen(x.Args[1]).(*ast.FuncLit)
+						if !ok {
+							return true
+						}
+						var pn []string
+						for _, fld := range lit.Type.Params.List {
+							for _, nm := range fld.Names {
+								pn = append(pn, nm.Name)
+							}
+						}
+						if len(pn) != 2 || pn[0] == "_" && pn[1] == "_" {
+							return true
+						}
+						sortName := ""
+						for _, imp := range file.Imports {
+							if strings.Trim(imp.Path.Value, "\"") == "sort" {
+								sortName = "sort"
+								if imp.Name != nil {
+									sortName = imp.Name.Name
+								}
+							}
+						}
+						needImport := sortName == ""
+						if needImport {
+							sortName = "sort"
+						}
+						if sc := pkg.Types.Scope().Innermost(x.Pos()); sc != nil {
+							if _, o := sc.LookupParent(sortName, x.Pos()); o != nil {
+								if _, isPkg := o.(*types.PkgName); !isPkg {
+									return true
+								}
+							} else if !needImport {
+								return true
+							}
+						}
+						ctr++
+						iN, jN := fmt.Sprintf("mlbI%d", ctr), fmt.Sprintf("mlbJ%d", ctr)
+						sl := in.text(x.Args[0].Pos(), x.Args[0].End())
+						fe := in.file(x.Pos())
+						fn := "Slice"
+						if name == "slices.SortStableFunc" {
+							fn = "SliceStable"
+						}
+						fe.edits = append(fe.edits, textEdit{start: in.off(x.Fun.Pos()), end: in.off(x.Fun.End()), text: sortName + "." + fn})
+						fe.edits = append(fe.edits, textEdit{start: in.off(lit.Type.Pos()), end: in.off(lit.Body.Lbrace) + 1,
+							text: "func(" + iN + ", " + jN + " int) bool {\n" + pn[0] + ", " + pn[1] + " := " + sl + "[" + iN + "], " + sl + "[" + jN + "]\n_, _ = " + pn[0] + ", " + pn[1] + "\n"})
+						okRet := true
+						InspectNoLit(lit.Body, func(m ast.Node) bool {
+							if rs, isRet := m.(*ast.ReturnStmt); isRet {
+								if len(rs.Results) != 1 {
+									okRet = false
+									return true
+								}
+								e := rs.Results[0]
+								fe.edits = append(fe.edits, textEdit{start: in.off(e.Pos()), end: in.off(e.Pos()), text: "("})
+								fe.edits = append(fe.edits, textEdit{start: in.off(e.End()), end: in.off(e.End()), text: ") < 0"})
+							}
+							return true
+						})
+						if !okRet {
+							return true // named results / bare returns: left alone (the edits above make the file fail to check, falling back)
+						}
+						if needImport && !addedSort {
+							addedSort = true
+							fe.edits = append(fe.edits, textEdit{start: in.off(file.Name.End()), end: in.off(file.Name.End()), text: "\n\nimport \"sort\"\n"})
+						}
+						taken = append(taken, [2]token.Pos{x.Fun.Pos(), x.Fun.End()}, [2]token.Pos{lit.Type.Pos(), lit.Body.Lbrace + 1})
+						keep[pkgIdent(x.Fun)] = true
+						plan.expanded = append(plan.expanded, "stdlib "+name)
+						return true
 					case "slices.Collect", "slices.Sorted":
 						if len(x.Args) != 1 {
 							return true
@@ -236,6 +346,9 @@ func planCanon(p *Prog) canonPlan {
 					}
 					if !free(x.Pos(), x.End()) {
 						return true
+					}
+					for k, v := range pendingImports {
+						extraImports[k] = v
 					}
 					ctr++
 					hname := fmt.Sprintf("mlbStd%d%s", ctr, name[strings.IndexByte(name, '.')+1:])
@@ -274,6 +387,18 @@ func planCanon(p *Prog) canonPlan {
 				}
 				tail += strings.Join(decls, "\n")
 				fe.edits = append(fe.edits, textEdit{start: len(fe.src), end: len(fe.src), text: tail})
+				if len(extraImports) > 0 && len(decls) > 0 {
+					var paths []string
+					for k := range extraImports {
+						paths = append(paths, k)
+					}
+					sort.Strings(paths)
+					imp := "\n"
+					for _, k := range paths {
+						imp += "\nimport " + extraImports[k] + " \"" + k + "\""
+					}
+					fe.edits = append(fe.edits, textEdit{start: in.off(file.Name.End()), end: in.off(file.Name.End()), text: imp + "\n"})
+				}
 			}
 		}
 	}
